@@ -308,4 +308,24 @@ theorem glob_run {g : G} (h : Glob g.st) (sched : List Tid) : Glob (run g sched)
   | nil => exact h
   | cons t ts ih => exact ih (glob_step h t)
 
+theorem mem_nonEmptyKeys_of_nodup {st : State} (hk : NodupKeys st.map) (k : Key) :
+    k ∈ nonEmptyKeys st ↔ ∃ x, x ∈ membersOf st k := by
+  unfold nonEmptyKeys
+  simp only [List.mem_map, List.mem_filter, Bool.not_eq_eq_eq_not, Bool.not_true, List.isEmpty_eq_false_iff]
+  constructor
+  · rintro ⟨⟨k', gs⟩, ⟨hp, hne⟩, rfl⟩
+    have hg := get_of_mem hk hp
+    obtain ⟨x, hx⟩ := List.exists_mem_of_ne_nil _ hne
+    refine ⟨x, ?_⟩
+    unfold membersOf; rw [hg]; exact hx
+  · rintro ⟨x, hx⟩
+    cases hg : get st.map k with
+    | none => unfold membersOf at hx; rw [hg] at hx; cases hx
+    | some gs =>
+      refine ⟨(k, gs), ⟨mem_of_get hg, ?_⟩, rfl⟩
+      unfold membersOf at hx; rw [hg] at hx
+      intro e
+      have hx' : x ∈ gs.members := hx
+      rw [e] at hx'; cases hx'
+
 end Pg.Conc
